@@ -1,5 +1,5 @@
 (* Lemmas about the topology model (C13, C15). *)
-From Coq Require Import String Ascii List Bool Arith PeanoNat ZArith Lia Permutation Sorted.
+From Coq Require Import String Ascii List Bool Arith PeanoNat ZArith Lia Permutation Sorted DecimalNat DecimalString.
 From V Require Import Core.StrOrd Core.Canon Model.TopologyM.
 Import ListNotations.
 Open Scope string_scope.
@@ -63,3 +63,826 @@ Definition wf_join_b (ps : list domain) (cs : list conn) : bool :=
   end.
 Definition pair_bound_b (ps : list domain) (cs : list conn) : bool :=
   match resolve_all ps cs with Err _ => false | Ok rl => pair_bound_rl_b rl end.
+
+(* ================================================================ basic facts *)
+Lemma bind_ok {A B} (r : res A) (f : A -> res B) b :
+  bind r f = Ok b -> exists a, r = Ok a /\ f a = Ok b.
+Proof. destruct r; simpl; [eauto|discriminate]. Qed.
+
+Lemma list_beq_eq {A} (f : A -> A -> bool) :
+  (forall a b, f a b = true <-> a = b) -> forall l l', list_beq f l l' = true <-> l = l'.
+Proof.
+  intros H. induction l as [|x l IH]; destruct l' as [|y l']; simpl; split; try congruence; try discriminate.
+  - rewrite andb_true_iff, H, IH. intros [-> ->]. reflexivity.
+  - intros E. inversion E; subst. rewrite andb_true_iff, H, IH. auto.
+Qed.
+
+Lemma opt_beq_eq {A} (f : A -> A -> bool) :
+  (forall a b, f a b = true <-> a = b) -> forall x y, opt_beq f x y = true <-> x = y.
+Proof.
+  intros H [a|] [b|]; simpl; split; try congruence; try discriminate.
+  - rewrite H. congruence.
+  - intros E. inversion E. now apply H.
+Qed.
+
+Lemma patch_beq_eq p q : patch_beq p q = true <-> p = q.
+Proof.
+  destruct p as [n1 m1 d1 a1 b1], q as [n2 m2 d2 a2 b2]. unfold patch_beq; simpl.
+  rewrite !andb_true_iff, String.eqb_eq, (opt_beq_eq String.eqb String.eqb_eq), Nat.eqb_eq,
+    !(list_beq_eq String.eqb String.eqb_eq).
+  split; [intros [[[[-> ->] ->] ->] ->]; reflexivity|intros E; inversion E; auto].
+Qed.
+
+Lemma face_beq_eq f g : face_beq f g = true <-> f = g.
+Proof.
+  destruct f as [p a e], g as [q b e']. unfold face_beq; simpl.
+  rewrite !andb_true_iff, patch_beq_eq, Nat.eqb_eq, Z.eqb_eq.
+  split; [intros [[-> ->] ->]; reflexivity|intros E; inversion E; auto].
+Qed.
+
+Lemma fwf_b_sound l : fwf_b l = true -> fwf l.
+Proof.
+  unfold fwf_b, fwf, wf. rewrite forallb_forall. intros H. split; intros a b Ha Hb.
+  - specialize (H a Ha). rewrite forallb_forall in H. specialize (H b Hb).
+    apply andb_true_iff in H. destruct H as [H _]. apply eqb_prop in H. rewrite H. apply face_beq_eq.
+  - specialize (H a Ha). rewrite forallb_forall in H. specialize (H b Hb).
+    apply andb_true_iff in H. destruct H as [_ H]. intros E.
+    apply String.eqb_eq in E. rewrite E in H. simpl in H. now apply face_beq_eq.
+Qed.
+
+Lemma pwf_b_names l :
+  pwf_b l = true -> forall a b, In a l -> In b l -> (patch_pyeqb a b = true <-> a = b).
+Proof.
+  unfold pwf_b. rewrite forallb_forall. intros H a b Ha Hb.
+  specialize (H a Ha). rewrite forallb_forall in H. specialize (H b Hb).
+  apply eqb_prop in H. rewrite H. apply patch_beq_eq.
+Qed.
+
+Lemma pwf_b_sound l : pwf_b l = true -> pwf l.
+Proof.
+  intros H. split; intros a b Ha Hb.
+  - now apply (pwf_b_names l H).
+  - intros E. apply (pwf_b_names l H a b Ha Hb). unfold patch_pyeqb. now apply String.eqb_eq.
+Qed.
+
+Lemma fnodup_b_sound l : fnodup_b l = true -> NoDup l.
+Proof.
+  induction l as [|f l IH]; simpl; [constructor|].
+  rewrite andb_true_iff, negb_true_iff. intros [H1 H2]. constructor; [|auto].
+  intros Hin. assert (existsb (face_beq f) l = true); [|congruence].
+  apply existsb_exists. exists f. split; [exact Hin|now apply face_beq_eq].
+Qed.
+
+(* ---------------------------------------------------------------- interface names *)
+Lemma append_nil_r s : s +++ "" = s.
+Proof. induction s; simpl; congruence. Qed.
+
+Lemma iname_inj a b c d :
+  no_bar a = true -> no_bar c = true -> iname a b = iname c d -> a = c /\ b = d.
+Proof.
+  unfold iname. revert c. induction a as [|x a IH]; intros [|y c]; simpl.
+  - intros _ _ E. inversion E. auto.
+  - intros _ H E. inversion E; subst. simpl in H. try rewrite Ascii.eqb_refl in H. discriminate.
+  - intros H _ E. inversion E; subst. simpl in H. try rewrite Ascii.eqb_refl in H. discriminate.
+  - rewrite !andb_true_iff. intros [_ Ha] [_ Hc] E. inversion E; subst.
+    destruct (IH c Ha Hc H1) as [-> ->]. auto.
+Qed.
+
+(* ================================================================ the loop of Domain.join *)
+Fixpoint build_ifs (rl : list (face * face * ornt)) (ifs : list iface) : res (list iface) :=
+  match rl with
+  | [] => Ok ifs
+  | x :: r => do ifs' <- join_step x ifs; build_ifs r ifs'
+  end.
+
+Lemma join_loop_spec ps bi dim : forall cs ifs bnds ifs' bnds',
+  join_loop ps bi dim cs ifs bnds = Ok (ifs', bnds') ->
+  exists rl, mapM (resolve_conn ps bi dim) cs = Ok rl /\ build_ifs rl ifs = Ok ifs'
+             /\ bnds' = bnds ++ joined_faces rl.
+Proof.
+  induction cs as [|c cs IH]; simpl; intros ifs bnds ifs' bnds' H.
+  - inversion H; subst. exists []. simpl. rewrite app_nil_r. auto.
+  - apply bind_ok in H. destruct H as [x [Hx H]].
+    apply bind_ok in H. destruct H as [ifs1 [Hs H]].
+    apply IH in H. destruct H as [rl [Hm [Hb Hn]]].
+    exists (x :: rl). rewrite Hx. simpl. rewrite Hm. simpl. rewrite Hs. simpl.
+    split; [reflexivity|]. split; [exact Hb|]. rewrite Hn, <- app_assoc. reflexivity.
+Qed.
+
+Definition mk_iface (fm fp : face) (o : ornt) : iface :=
+  mkIface (iname (pname (f_patch fm)) (pname (f_patch fp))) fm fp o.
+
+Lemma bjoin_ok fm fp o i : bjoin fm fp o = Ok i -> i = mk_iface fm fp o /\ f_axis fm = f_axis fp.
+Proof.
+  unfold bjoin. destruct (negb (Nat.eqb (p_dim (f_patch fm)) (p_dim (f_patch fp)))); [discriminate|].
+  destruct (Nat.eqb (p_dim (f_patch fm)) 3).
+  - destruct o; simpl; try discriminate.
+    destruct (Nat.eqb (f_axis fm) (f_axis fp)) eqn:E; simpl; [|discriminate].
+    intros H. inversion H. apply Nat.eqb_eq in E. auto.
+  - simpl. destruct (Nat.eqb (f_axis fm) (f_axis fp)) eqn:E; simpl; [|discriminate].
+    intros H. inversion H. apply Nat.eqb_eq in E. auto.
+Qed.
+
+Lemma dict_mem_In k l : dict_mem k l = true <-> exists i, In i l /\ i_name i = k.
+Proof.
+  unfold dict_mem. rewrite existsb_exists. split; intros [i [Hi E]]; exists i; split; auto.
+  - now apply String.eqb_eq.
+  - now apply String.eqb_eq.
+Qed.
+
+Lemma dict_set_fresh i l : dict_mem (i_name i) l = false -> dict_set i l = l ++ [i].
+Proof.
+  induction l as [|j l IH]; simpl; [reflexivity|].
+  rewrite orb_false_iff. intros [H1 H2]. rewrite H1. now rewrite IH.
+Qed.
+
+(* the connection x appears as the interface i: with the declared sides, or with the
+   sides exchanged (name clash), always with the declared orientation *)
+Definition conn_iface (x : face * face * ornt) (i : iface) : Prop :=
+  i = mk_iface (rminus x) (rplus x) (rornt x) \/ i = mk_iface (rplus x) (rminus x) (rornt x).
+
+Definition named (a b : string) (i : iface) : bool :=
+  String.eqb (i_name i) (iname a b) || String.eqb (i_name i) (iname b a).
+
+Lemma named_upair a b x i :
+  no_bar a = true -> no_bar b = true ->
+  no_bar (fst (rnames x)) = true -> no_bar (snd (rnames x)) = true ->
+  conn_iface x i -> upair_eqb a b x = named a b i.
+Proof.
+  intros Ha Hb Hc Hd [->| ->]; unfold upair_eqb, named, mk_iface, rnames in *; simpl in *.
+  - set (c := pname (f_patch (rminus x))) in *. set (d := pname (f_patch (rplus x))) in *.
+    f_equal.
+    + destruct (String.eqb_spec (iname c d) (iname a b)) as [E|E].
+      * apply iname_inj in E; auto. destruct E as [-> ->]. now rewrite !String.eqb_refl.
+      * destruct (String.eqb_spec c a) as [->|]; [|reflexivity].
+        destruct (String.eqb_spec d b) as [->|]; [congruence|reflexivity].
+    + destruct (String.eqb_spec (iname c d) (iname b a)) as [E|E].
+      * apply iname_inj in E; auto. destruct E as [-> ->]. now rewrite !String.eqb_refl.
+      * destruct (String.eqb_spec c b) as [->|]; [|reflexivity].
+        destruct (String.eqb_spec d a) as [->|]; [congruence|reflexivity].
+  - set (c := pname (f_patch (rminus x))) in *. set (d := pname (f_patch (rplus x))) in *.
+    rewrite orb_comm. f_equal.
+    + destruct (String.eqb_spec (iname d c) (iname a b)) as [E|E].
+      * apply iname_inj in E; auto. destruct E as [-> ->]. now rewrite !String.eqb_refl.
+      * destruct (String.eqb_spec c b) as [->|]; [|reflexivity].
+        destruct (String.eqb_spec d a) as [->|]; [congruence|reflexivity].
+    + destruct (String.eqb_spec (iname d c) (iname b a)) as [E|E].
+      * apply iname_inj in E; auto. destruct E as [-> ->]. now rewrite !String.eqb_refl.
+      * destruct (String.eqb_spec c a) as [->|]; [|reflexivity].
+        destruct (String.eqb_spec d b) as [->|]; [congruence|reflexivity].
+Qed.
+
+Lemma filter_two {A} (p : A -> bool) (l : list A) x y :
+  In x l -> In y l -> x <> y -> p x = true -> p y = true -> 2 <= length (filter p l).
+Proof.
+  induction l as [|z l IH]; simpl; [tauto|]. intros Hx Hy Hne Px Py.
+  assert (Hone : forall w, In w l -> p w = true -> 1 <= length (filter p l)).
+  { clear. induction l as [|u l IH]; simpl; [tauto|]. intros w [->|Hw] Pw.
+    - rewrite Pw. simpl. lia.
+    - destruct (p u); simpl; [lia|eauto]. }
+  destruct Hx as [->|Hx], Hy as [->|Hy].
+  - congruence.
+  - rewrite Px. simpl. specialize (Hone y Hy Py). lia.
+  - rewrite Py. simpl. specialize (Hone x Hx Px). lia.
+  - specialize (IH Hx Hy Hne Px Py). destruct (p z); simpl; lia.
+Qed.
+
+Lemma filter_one {A} (p : A -> bool) (l : list A) x :
+  In x l -> p x = true -> 1 <= length (filter p l).
+Proof.
+  induction l as [|u l IH]; simpl; [tauto|]. intros [->|Hw] Pw.
+  - rewrite Pw. simpl. lia.
+  - destruct (p u); simpl; [lia|eauto].
+Qed.
+
+Lemma Forall2_filter_len {A B} (R : A -> B -> Prop) (p : A -> bool) (q : B -> bool) l l' :
+  Forall2 R l l' -> (forall a b, In a l -> R a b -> p a = q b) ->
+  length (filter p l) = length (filter q l').
+Proof.
+  induction 1 as [|a b l l' Hab H IH]; simpl; intros Hpq; [reflexivity|].
+  rewrite (Hpq a b (or_introl eq_refl) Hab). destruct (q b); simpl; rewrite IH; auto.
+Qed.
+
+Definition rl_no_bar (rl : list (face * face * ornt)) : Prop :=
+  forall f, In f (joined_faces rl) -> no_bar (pname (f_patch f)) = true.
+
+Lemma rl_no_bar_names rl x : rl_no_bar rl -> In x rl ->
+  no_bar (fst (rnames x)) = true /\ no_bar (snd (rnames x)) = true.
+Proof.
+  intros H Hx. unfold rnames; simpl. split; apply H; unfold joined_faces; apply in_flat_map;
+    exists x; (split; [exact Hx|unfold rsides; simpl; auto]).
+Qed.
+
+Lemma NoDup_snoc {A} (l : list A) x : NoDup (l ++ [x]) <-> NoDup l /\ ~ In x l.
+Proof.
+  assert (P : Permutation (l ++ [x]) (x :: l)) by (symmetry; apply Permutation_cons_append).
+  split.
+  - intros H. apply (Permutation_NoDup P) in H. inversion H; auto.
+  - intros [H1 H2]. apply (Permutation_NoDup (Permutation_sym P)). now constructor.
+Qed.
+
+(* Without a third connection between the same two patches (a second one from a patch to itself)
+   no dictionary entry is ever overwritten: the loop appends one interface per connection. *)
+Lemma build_ifs_spec : forall rl done ifs ifs',
+  Forall2 conn_iface done ifs -> NoDup (map i_name ifs) ->
+  rl_no_bar (done ++ rl) -> pair_bound (done ++ rl) ->
+  build_ifs rl ifs = Ok ifs' ->
+  exists new, ifs' = ifs ++ new /\ Forall2 conn_iface rl new /\ NoDup (map i_name ifs').
+Proof.
+  induction rl as [|x rl IH]; simpl; intros done ifs ifs' HF HN Hnb Hpb H.
+  - inversion H; subst. exists []. rewrite app_nil_r. auto.
+  - apply bind_ok in H. destruct H as [ifs1 [Hs H]].
+    unfold join_step in Hs. destruct x as [[fm fp] o].
+    apply bind_ok in Hs. destruct Hs as [i0 [Hi0 Hs]].
+    apply bind_ok in Hs. destruct Hs as [i [Hi Hs]]. inversion Hs; subst ifs1; clear Hs.
+    apply bjoin_ok in Hi0. destruct Hi0 as [-> Hax].
+    set (x := (fm, fp, o)) in *.
+    assert (Hxin : In x (done ++ x :: rl)) by (apply in_or_app; right; now left).
+    destruct (rl_no_bar_names _ x Hnb Hxin) as [Na Nb]. simpl in Na, Nb.
+    set (a := pname (f_patch fm)) in *. set (b := pname (f_patch fp)) in *.
+    (* counting: the entries named a|b or b|a are the earlier connections between a and b *)
+    assert (Hcount : length (filter (upair_eqb a b) done) = length (filter (named a b) ifs)).
+    { apply (Forall2_filter_len conn_iface); [exact HF|]. intros y j Hy Hyj.
+      assert (Hyin : In y (done ++ x :: rl)) by (apply in_or_app; now left).
+      destruct (rl_no_bar_names _ y Hnb Hyin) as [Nc Nd].
+      now apply named_upair. }
+    assert (Hcap : length (filter (upair_eqb a b) done) + 1 <= pair_cap a b).
+    { specialize (Hpb a b). rewrite filter_app, app_length in Hpb. simpl in Hpb.
+      assert (E : upair_eqb a b x = true).
+      { unfold upair_eqb, rnames, x; simpl. fold a b. now rewrite !String.eqb_refl. }
+      rewrite E in Hpb. simpl in Hpb. lia. }
+    (* the chosen name is fresh *)
+    assert (Hfresh : dict_mem (i_name i) ifs = false /\ conn_iface x i).
+    { destruct (dict_mem (i_name (mk_iface fm fp o)) ifs) eqn:Hm.
+      - apply bjoin_ok in Hi. destruct Hi as [-> _]. split; [|right; reflexivity].
+        simpl. fold a b. destruct (dict_mem (iname b a) ifs) eqn:Hm2; [|reflexivity]. exfalso.
+        simpl in Hm. fold a b in Hm.
+        apply dict_mem_In in Hm. destruct Hm as [i1 [Hi1 E1]].
+        apply dict_mem_In in Hm2. destruct Hm2 as [i2 [Hi2 E2]].
+        unfold pair_cap in Hcap. destruct (String.eqb_spec a b) as [Eab|Nab].
+        + assert (1 <= length (filter (named a b) ifs)).
+          { apply (filter_one _ _ i1 Hi1). unfold named. rewrite E1, String.eqb_refl. reflexivity. }
+          lia.
+        + assert (2 <= length (filter (named a b) ifs)).
+          { apply (filter_two _ _ i1 i2 Hi1 Hi2).
+            - intros ->. rewrite E1 in E2. apply iname_inj in E2; auto. destruct E2; congruence.
+            - unfold named. rewrite E1, String.eqb_refl. reflexivity.
+            - unfold named. rewrite E2, String.eqb_refl. apply orb_true_r. }
+          lia.
+      - inversion Hi; subst i. split; [exact Hm|left; reflexivity]. }
+    destruct Hfresh as [Hfr Hci].
+    rewrite (dict_set_fresh _ _ Hfr) in H.
+    apply (IH (done ++ [x]) (ifs ++ [i])) in H.
+    + destruct H as [new [-> [HF2 HN2]]]. exists (i :: new). rewrite <- app_assoc. simpl.
+      split; [reflexivity|]. split; [constructor; auto|]. now rewrite <- app_assoc in HN2.
+    + apply Forall2_app; [exact HF|constructor; [exact Hci|constructor]].
+    + rewrite map_app. simpl. apply NoDup_snoc. split; [exact HN|].
+      intros Hin. apply in_map_iff in Hin. destruct Hin as [j [Ej Hj]].
+      assert (dict_mem (i_name i) ifs = true); [|congruence].
+      apply dict_mem_In. exists j. auto.
+    + now rewrite <- app_assoc.
+    + now rewrite <- app_assoc.
+Qed.
+
+(* ================================================================ inversion of a successful join *)
+Definition join_boundary (ps : list domain) (rl : list (face * face * ornt)) : list face :=
+  match joined_faces rl with
+  | [] => canonF (all_faces ps)
+  | _ => canonF (filter (fun f => negb (mem face_pyeqb f (canonF (joined_faces rl)))) (canonF (all_faces ps)))
+  end.
+
+Definition logical_of (nm : string) (dim : nat) (ints : list patch) (bnd : list face) (lifs : list iface) : domain :=
+  mkDomain nm dim (canonP (map lpatch ints)) (canonF (map lface bnd)) lifs MNone None.
+
+Lemma join_inv ps cs nm D :
+  2 <= length ps -> join ps cs nm = Ok D ->
+  exists rl ifs,
+    resolve_all ps cs = Ok rl /\ build_ifs rl [] = Ok ifs /\
+    d_name D = nm /\ d_dim D = join_dim ps /\ d_conn D = ifs /\
+    d_interiors D = canonP (flat_map d_interiors ps) /\
+    d_boundary D = join_boundary ps rl /\
+    (forallb is_mapped (d_interiors D) = true ->
+       exists lifs, logical_conn ifs [] = Ok lifs /\
+         d_logical D = Some (logical_of nm (join_dim ps) (d_interiors D) (d_boundary D) lifs) /\
+         d_mapping D = multi_mapping (d_interiors D)) /\
+    (forallb is_mapped (d_interiors D) = false -> d_logical D = None /\ d_mapping D = MNone).
+Proof.
+  destruct ps as [|p0 [|p1 r]]; simpl length; try lia. intros _.
+  unfold join. set (ps := p0 :: p1 :: r).
+  destruct (negb (forallb (fun p => Nat.eqb (d_dim p) (d_dim p0)) ps)); [discriminate|].
+  intros H. apply bind_ok in H. destruct H as [[ifs joined] [Hl H]].
+  apply join_loop_spec in Hl. destruct Hl as [rl [Hm [Hb Hj]]]. simpl in Hj. subst joined.
+  destruct (existsb (fun p => Nat.ltb (length (d_boundary p)) 2) ps); [discriminate|].
+  fold (all_faces ps) in H.
+  change (match joined_faces rl with
+          | [] => canonF (all_faces ps)
+          | _ :: _ => canonF (filter (fun f => negb (mem face_pyeqb f (canonF (joined_faces rl)))) (canonF (all_faces ps)))
+          end) with (join_boundary ps rl) in H.
+  destruct (Nat.eqb (length (join_boundary ps rl)) 1); [discriminate|].
+  destruct (Nat.ltb (length (canonP (flat_map d_interiors ps))) 2); [discriminate|].
+  exists rl, ifs. split; [exact Hm|]. split; [exact Hb|].
+  destruct (forallb is_mapped (canonP (flat_map d_interiors ps))) eqn:Hmap.
+  - apply bind_ok in H. destruct H as [lifs [Hlc H]]. inversion H; subst D; simpl.
+    repeat (split; [reflexivity|]). split.
+    + intros _. exists lifs. auto.
+    + intros Hc. change (forallb is_mapped (canonP (flat_map d_interiors ps)) = false) in Hc. congruence.
+  - inversion H; subst D; simpl. repeat (split; [reflexivity|]). split.
+    + intros Hc. change (forallb is_mapped (canonP (flat_map d_interiors ps)) = true) in Hc. congruence.
+    + auto.
+Qed.
+
+(* ---------------------------------------------------------------- membership under well-formedness *)
+Lemma fwf_sub l l' : (forall f, In f l' -> In f l) -> fwf l -> fwf l'.
+Proof. apply wf_incl. Qed.
+
+Lemma fmem_In l f x : fwf l -> In f l -> (forall y, In y x -> In y l) ->
+  (mem face_pyeqb f x = true <-> In f x).
+Proof.
+  intros [H1 _] Hf Hx. unfold mem. rewrite existsb_exists. split.
+  - intros [y [Hy E]]. apply (H1 f y) in E; auto. now subst.
+  - intros Hin. exists f. split; [exact Hin|]. apply (H1 f f); auto.
+Qed.
+
+Lemma join_boundary_In ps rl f :
+  fwf (all_faces ps ++ joined_faces rl) ->
+  (In f (join_boundary ps rl) <-> In f (all_faces ps) /\ ~ In f (joined_faces rl)).
+Proof.
+  intros W. unfold join_boundary.
+  assert (Wa : fwf (all_faces ps)) by (eapply fwf_sub; [|exact W]; intros; apply in_or_app; auto).
+  assert (Wj : fwf (joined_faces rl)) by (eapply fwf_sub; [|exact W]; intros; apply in_or_app; auto).
+  destruct (joined_faces rl) as [|j0 jr] eqn:Ej.
+  - unfold canonF. rewrite (canon_In _ _ _ _ Wa). simpl. tauto.
+  - rewrite <- Ej in *. clear Ej j0 jr.
+    set (flt := filter _ _).
+    assert (Hflt : forall g, In g flt <-> In g (all_faces ps) /\ ~ In g (joined_faces rl)).
+    { intros g. unfold flt. rewrite filter_In. unfold canonF. rewrite (canon_In _ _ _ _ Wa).
+      split.
+      - intros [Hg Hn]. split; [exact Hg|]. intros Hj. apply negb_true_iff in Hn.
+        assert (mem face_pyeqb g (canon face_pyeqb face_str (joined_faces rl)) = true); [|congruence].
+        apply (fmem_In (all_faces ps ++ joined_faces rl)); auto.
+        + apply in_or_app; auto.
+        + intros y Hy. apply (canon_In _ _ _ _ Wj) in Hy. apply in_or_app; auto.
+        + now apply (canon_In _ _ _ _ Wj).
+      - intros [Hg Hn]. split; [exact Hg|]. apply negb_true_iff.
+        destruct (mem face_pyeqb g (canon face_pyeqb face_str (joined_faces rl))) eqn:E; [|reflexivity].
+        exfalso. apply Hn.
+        apply (fmem_In (all_faces ps ++ joined_faces rl)) in E; auto.
+        + now apply (canon_In _ _ _ _ Wj) in E.
+        + apply in_or_app; auto.
+        + intros y Hy. apply (canon_In _ _ _ _ Wj) in Hy. apply in_or_app; auto. }
+    assert (Wf : fwf flt).
+    { eapply fwf_sub; [|exact Wa]. intros g Hg. now apply Hflt in Hg. }
+    unfold canonF. rewrite (canon_In _ _ _ _ Wf). apply Hflt.
+Qed.
+
+(* ---------------------------------------------------------------- sides of the interfaces *)
+Definition isides (i : iface) : list face := [i_minus i; i_plus i].
+
+Lemma conn_iface_sides rl ifs :
+  Forall2 conn_iface rl ifs -> Permutation (flat_map isides ifs) (joined_faces rl).
+Proof.
+  induction 1 as [|x i rl ifs Hx H IH]; simpl; [constructor|].
+  destruct Hx as [->| ->]; unfold isides, rsides, mk_iface; simpl.
+  - now do 2 constructor.
+  - eapply perm_trans; [apply perm_swap|]. now do 2 constructor.
+Qed.
+
+Lemma NoDup_app_inv {A} (l1 l2 : list A) :
+  NoDup (l1 ++ l2) -> NoDup l1 /\ NoDup l2 /\ forall x, In x l1 -> ~ In x l2.
+Proof.
+  induction l1 as [|a l1 IH]; simpl; intros H.
+  - split; [constructor|]. split; [exact H|]. tauto.
+  - inversion H as [|? ? Hn Hd]; subst. destruct (IH Hd) as [N1 [N2 Hdis]].
+    split; [constructor; auto; intros Hin; apply Hn; apply in_or_app; auto|].
+    split; [exact N2|]. intros x [->|Hx]; [intros Hin; apply Hn; apply in_or_app; auto|auto].
+Qed.
+
+Lemma NoDup_flat_map_unique {A B} (g : A -> list B) (l : list A) a b x :
+  NoDup (flat_map g l) -> In a l -> In b l -> In x (g a) -> In x (g b) -> a = b.
+Proof.
+  induction l as [|c l IH]; simpl; [tauto|]. intros H Ha Hb Xa Xb.
+  apply NoDup_app_inv in H. destruct H as [_ [N2 Hdis]].
+  destruct Ha as [->|Ha], Hb as [->|Hb]; auto.
+  - exfalso. apply (Hdis x Xa). apply in_flat_map. eauto.
+  - exfalso. apply (Hdis x Xb). apply in_flat_map. eauto.
+Qed.
+
+Lemma NoDup_flat_map_each {A B} (g : A -> list B) (l : list A) a :
+  NoDup (flat_map g l) -> In a l -> NoDup (g a).
+Proof.
+  induction l as [|c l IH]; simpl; [tauto|]. intros H [->|Ha].
+  - now apply NoDup_app_inv in H.
+  - apply NoDup_app_inv in H. apply IH; tauto.
+Qed.
+
+(* ================================================================ C13: the face partition *)
+Definition side_of (f : face) (i : iface) : Prop :=
+  (f = i_minus i /\ f <> i_plus i) \/ (f = i_plus i /\ f <> i_minus i).
+
+Theorem join_face_partition ps cs nm D rl :
+  2 <= length ps -> join ps cs nm = Ok D -> resolve_all ps cs = Ok rl ->
+  fwf (all_faces ps ++ joined_faces rl) -> NoDup (joined_faces rl) ->
+  rl_no_bar rl -> pair_bound rl ->
+  forall f, In f (all_faces ps) ->
+    (In f (d_boundary D) /\ forall i, In i (d_conn D) -> f <> i_minus i /\ f <> i_plus i)
+    \/ (~ In f (d_boundary D) /\
+        exists i, In i (d_conn D) /\ side_of f i /\
+                  forall j, In j (d_conn D) -> (f = i_minus j \/ f = i_plus j) -> j = i).
+Proof.
+  intros Hlen HJ Hr W ND Hnb Hpb f Hf.
+  destruct (join_inv _ _ _ _ Hlen HJ) as [rl' [ifs [Hr' [Hb [_ [_ [Hc [_ [Hbd _]]]]]]]]].
+  rewrite Hr in Hr'. inversion Hr'; subst rl'. clear Hr'.
+  assert (HS : exists new, ifs = [] ++ new /\ Forall2 conn_iface rl new /\ NoDup (map i_name ifs)).
+  { apply (build_ifs_spec rl [] [] ifs); [constructor|constructor|exact Hnb|exact Hpb|exact Hb]. }
+  destruct HS as [new [E [HF _]]]. simpl in E. subst new.
+  pose proof (conn_iface_sides _ _ HF) as HP.
+  assert (NDi : NoDup (flat_map isides ifs)) by (eapply Permutation_NoDup; [symmetry; exact HP|exact ND]).
+  rewrite Hbd, Hc.
+  destruct (in_dec (fun a b => match bool_dec (face_beq a b) true with
+                               | left e => left (proj1 (face_beq_eq a b) e)
+                               | right n => right (fun e => n (proj2 (face_beq_eq a b) e)) end)
+                   f (joined_faces rl)) as [Hin|Hout].
+  - right. split; [rewrite (join_boundary_In _ _ _ W); tauto|].
+    apply (Permutation_in _ (Permutation_sym HP)) in Hin.
+    apply in_flat_map in Hin. destruct Hin as [i [Hi Hs]].
+    pose proof (NoDup_flat_map_each _ _ _ NDi Hi) as Ni. unfold isides in Ni.
+    apply NoDup_cons_iff in Ni. destruct Ni as [Hnot _]. simpl in Hnot.
+    exists i. split; [exact Hi|]. split.
+    + unfold isides in Hs. simpl in Hs. destruct Hs as [E|[E|[]]]; subst f.
+      * left. split; [reflexivity|]. intros E. apply Hnot. left. now symmetry.
+      * right. split; [reflexivity|]. intros E. apply Hnot. left. exact E.
+    + intros j Hj Hjs. apply (NoDup_flat_map_unique isides ifs j i f NDi Hj Hi); [|exact Hs].
+      unfold isides. simpl. destruct Hjs as [->| ->]; auto.
+  - left. split; [rewrite (join_boundary_In _ _ _ W); tauto|].
+    intros i Hi. split; intros ->; apply Hout; apply (Permutation_in _ HP); apply in_flat_map;
+      exists i; (split; [exact Hi|unfold isides; simpl; auto]).
+Qed.
+
+Lemma join_resolves ps cs nm D :
+  2 <= length ps -> join ps cs nm = Ok D -> exists rl, resolve_all ps cs = Ok rl.
+Proof. intros H1 H2. destruct (join_inv _ _ _ _ H1 H2) as [rl [_ [H _]]]. eauto. Qed.
+
+(* ================================================================ C13: declared connections *)
+(* one interface per declared connection, in the order of the declaration, with the declared
+   faces and the declared orientation; minus/plus exchanged only after a name clash *)
+Definition declared_as (x : face * face * ornt) (i : iface) : Prop :=
+  ((i_minus i = rminus x /\ i_plus i = rplus x) \/ (i_minus i = rplus x /\ i_plus i = rminus x))
+  /\ i_ornt i = rornt x
+  /\ i_name i = iname (pname (f_patch (i_minus i))) (pname (f_patch (i_plus i))).
+
+Theorem join_declared ps cs nm D rl :
+  2 <= length ps -> join ps cs nm = Ok D -> resolve_all ps cs = Ok rl ->
+  rl_no_bar rl -> pair_bound rl ->
+  Forall2 declared_as rl (d_conn D) /\ NoDup (map i_name (d_conn D)).
+Proof.
+  intros Hlen HJ Hr Hnb Hpb.
+  destruct (join_inv _ _ _ _ Hlen HJ) as [rl' [ifs [Hr' [Hb [_ [_ [Hc _]]]]]]].
+  rewrite Hr in Hr'. inversion Hr'; subst rl'. clear Hr'.
+  assert (HS : exists new, ifs = [] ++ new /\ Forall2 conn_iface rl new /\ NoDup (map i_name ifs)).
+  { apply (build_ifs_spec rl [] [] ifs); [constructor|constructor|exact Hnb|exact Hpb|exact Hb]. }
+  destruct HS as [new [E [HF HN]]]. simpl in E. subst new. rewrite Hc. split; [|exact HN].
+  clear - HF. induction HF as [|x i rl ifs Hx _ IH]; constructor; [|exact IH].
+  destruct Hx as [->| ->]; unfold declared_as, mk_iface; simpl; auto.
+Qed.
+
+(* the k-th connection is resolved to the faces looked up on the referenced patches *)
+Lemma mapM_Forall2 {A B} (f : A -> res B) l l' :
+  mapM f l = Ok l' -> Forall2 (fun a b => f a = Ok b) l l'.
+Proof.
+  revert l'. induction l as [|a l IH]; simpl; intros l' H.
+  - inversion H. constructor.
+  - apply bind_ok in H. destruct H as [b [Hb H]]. apply bind_ok in H. destruct H as [bs [Hbs H]].
+    inversion H; subst. constructor; auto.
+Qed.
+
+Lemma resolve_conn_ok ps bi dim c fm fp o :
+  resolve_conn ps bi dim c = Ok (fm, fp, o) ->
+  exists pm pp, resolve_patch ps bi (s_ref (c_minus c)) = Ok pm /\ resolve_patch ps bi (s_ref (c_plus c)) = Ok pp
+    /\ get_boundary pm (s_axis (c_minus c)) (s_ext (c_minus c)) = Ok fm
+    /\ get_boundary pp (s_axis (c_plus c)) (s_ext (c_plus c)) = Ok fp
+    /\ ornt_of dim (c_ornt c) = Ok o.
+Proof.
+  unfold resolve_conn. intros H.
+  apply bind_ok in H. destruct H as [pm [H1 H]]. apply bind_ok in H. destruct H as [pp [H2 H]].
+  apply bind_ok in H. destruct H as [fm' [H3 H]]. apply bind_ok in H. destruct H as [fp' [H4 H]].
+  apply bind_ok in H. destruct H as [o' [H5 H]]. inversion H; subst. exists pm, pp. auto.
+Qed.
+
+(* ================================================================ C13: all patches are interiors *)
+Theorem join_interiors ps cs nm D :
+  2 <= length ps -> join ps cs nm = Ok D -> pwf (flat_map d_interiors ps) ->
+  (forall p, In p (d_interiors D) <-> exists d, In d ps /\ In p (d_interiors d))
+  /\ NoDup (d_interiors D) /\ StronglySorted (kle pname) (d_interiors D).
+Proof.
+  intros Hlen HJ W.
+  destruct (join_inv _ _ _ _ Hlen HJ) as [rl [ifs [_ [_ [_ [_ [_ [Hi _]]]]]]]].
+  rewrite Hi. unfold canonP. split; [|split].
+  - intros p. rewrite (canon_In _ _ _ _ W). rewrite in_flat_map. tauto.
+  - now apply canon_NoDup.
+  - apply canon_sorted.
+Qed.
+
+(* ================================================================ soundness of the decidable hypotheses *)
+Lemma upair_eqb_sym a b x : upair_eqb a b x = upair_eqb b a x.
+Proof. unfold upair_eqb. apply orb_comm. Qed.
+
+Lemma pair_cap_sym a b : pair_cap a b = pair_cap b a.
+Proof. unfold pair_cap. now rewrite String.eqb_sym. Qed.
+
+Lemma pair_bound_rl_b_sound rl : pair_bound_rl_b rl = true -> pair_bound rl.
+Proof.
+  unfold pair_bound_rl_b, pair_bound. rewrite forallb_forall. intros H a b.
+  destruct (filter (upair_eqb a b) rl) as [|x r] eqn:E; [simpl; lia|].
+  assert (Hx : In x (filter (upair_eqb a b) rl)) by (rewrite E; now left).
+  apply filter_In in Hx. destruct Hx as [Hin Hu].
+  specialize (H x Hin). apply Nat.leb_le in H. rewrite <- E.
+  unfold upair_eqb in Hu. apply orb_true_iff in Hu.
+  destruct Hu as [Hu|Hu]; apply andb_true_iff in Hu; destruct Hu as [E1 E2];
+    apply String.eqb_eq in E1, E2; rewrite E1, E2 in H.
+  - exact H.
+  - rewrite (filter_ext _ _ (upair_eqb_sym a b)), pair_cap_sym. exact H.
+Qed.
+
+Theorem wf_join_b_sound ps cs :
+  wf_join_b ps cs = true ->
+  exists rl, resolve_all ps cs = Ok rl /\ 2 <= length ps /\
+             fwf (all_faces ps ++ joined_faces rl) /\ NoDup (joined_faces rl) /\ rl_no_bar rl /\
+             pwf (flat_map d_interiors ps).
+Proof.
+  unfold wf_join_b. destruct (resolve_all ps cs) as [rl|e]; [|discriminate].
+  rewrite !andb_true_iff. intros [[[[H1 H2] H3] H4] H5]. exists rl. split; [reflexivity|].
+  split; [now apply Nat.leb_le|]. split; [now apply fwf_b_sound|]. split; [now apply fnodup_b_sound|].
+  split; [|now apply pwf_b_sound].
+  intros f Hf. rewrite forallb_forall in H4. now apply H4.
+Qed.
+
+Theorem pair_bound_b_sound ps cs rl :
+  pair_bound_b ps cs = true -> resolve_all ps cs = Ok rl -> pair_bound rl.
+Proof. unfold pair_bound_b. intros H E. rewrite E in H. now apply pair_bound_rl_b_sound. Qed.
+
+(* ================================================================ a third connection between the same
+   two patches overwrites a dictionary entry: faces disappear from boundary and interfaces alike *)
+Definition sqA : patch := mkPatch "A" None 2 ["0"; "0"] ["1"; "1"].
+Definition sqB : patch := mkPatch "B" None 2 ["0"; "0"] ["1"; "1"].
+Definition three_conns : list conn :=
+  [ mkConn (mkSide (PIdx 0) 0 1) (mkSide (PIdx 1) 0 (-1)) (Some (O2 1));
+    mkConn (mkSide (PIdx 0) 0 (-1)) (mkSide (PIdx 1) 0 1) (Some (O2 1));
+    mkConn (mkSide (PIdx 0) 1 1) (mkSide (PIdx 1) 1 (-1)) (Some (O2 1)) ].
+
+Lemma In_face_b f l : In f l <-> existsb (face_beq f) l = true.
+Proof.
+  rewrite existsb_exists. split.
+  - intros H. exists f. split; [exact H|now apply face_beq_eq].
+  - intros [g [Hg E]]. apply face_beq_eq in E. now subst.
+Qed.
+
+Theorem join_partition_refuted :
+  exists ps cs nm D rl f,
+    join ps cs nm = Ok D /\ resolve_all ps cs = Ok rl /\ 2 <= length ps /\
+    fwf (all_faces ps ++ joined_faces rl) /\ NoDup (joined_faces rl) /\ rl_no_bar rl /\
+    In f (all_faces ps) /\ ~ In f (d_boundary D) /\
+    forall i, In i (d_conn D) -> f <> i_minus i /\ f <> i_plus i.
+Proof.
+  set (ps := [ncube_domain sqA; ncube_domain sqB]).
+  destruct (join ps three_conns "AB") as [D|] eqn:EJ; [|vm_compute in EJ; discriminate].
+  destruct (resolve_all ps three_conns) as [rl|] eqn:ER; [|vm_compute in ER; discriminate].
+  exists ps, three_conns, "AB", D, rl, (mkFace sqA 0 (-1)).
+  vm_compute in EJ. inversion EJ; subst D; clear EJ.
+  vm_compute in ER. inversion ER; subst rl; clear ER.
+  split; [reflexivity|]. split; [reflexivity|]. split; [simpl; lia|].
+  split; [apply fwf_b_sound; vm_compute; reflexivity|].
+  split; [apply fnodup_b_sound; vm_compute; reflexivity|].
+  split; [intros f Hf; apply In_face_b in Hf; revert f Hf; 
+          assert (H : forallb (fun f => no_bar (pname (f_patch f)))
+                        (joined_faces [(mkFace sqA 0 1, mkFace sqB 0 (-1), O2 1); (mkFace sqA 0 (-1), mkFace sqB 0 1, O2 1);
+                                       (mkFace sqA 1 1, mkFace sqB 1 (-1), O2 1)]) = true) by (vm_compute; reflexivity);
+          rewrite forallb_forall in H; intros f Hf; apply H; now apply In_face_b|].
+  split; [apply In_face_b; vm_compute; reflexivity|].
+  split; [intros H; apply In_face_b in H; vm_compute in H; discriminate|].
+  intros i Hi. simpl in Hi.
+  destruct Hi as [<-|[<-|[]]]; simpl; split; intros E; inversion E.
+Qed.
+
+(* ================================================================ C13: the logical twin *)
+(* the logical counterpart of an interface between two mapped patches *)
+Definition liface (i : iface) : iface :=
+  mkIface (iname (p_lname (f_patch (i_minus i))) (p_lname (f_patch (i_plus i))))
+          (lface (i_minus i)) (lface (i_plus i)) (i_ornt i).
+
+Lemma iface_logical_some i j : iface_logical i = Some j -> j = liface i.
+Proof.
+  unfold iface_logical. destruct (is_mapped _ && is_mapped _); [|discriminate].
+  intros H. now inversion H.
+Qed.
+
+Lemma logical_conn_spec : forall l acc lifs,
+  logical_conn l acc = Ok lifs -> NoDup (map i_name (acc ++ map liface l)) ->
+  lifs = acc ++ map liface l.
+Proof.
+  induction l as [|v l IH]; simpl; intros acc lifs H ND.
+  - inversion H. now rewrite app_nil_r.
+  - destruct (iface_logical v) as [lv|] eqn:E; [|discriminate].
+    apply iface_logical_some in E. subst lv.
+    assert (Hfr : dict_mem (i_name (liface v)) acc = false).
+    { destruct (dict_mem (i_name (liface v)) acc) eqn:Hm; [|reflexivity]. exfalso.
+      apply dict_mem_In in Hm. destruct Hm as [j [Hj Ej]].
+      rewrite map_app in ND. simpl in ND. apply NoDup_app_inv in ND. destruct ND as [_ [_ Hd]].
+      apply (Hd (i_name j)); [now apply in_map|]. left. now symmetry. }
+    rewrite (dict_set_fresh _ _ Hfr) in H. apply IH in H.
+    + now rewrite <- app_assoc in H.
+    + now rewrite <- app_assoc.
+Qed.
+
+Lemma NoDup_map_transfer {A B C} (f : A -> B) (g : A -> C) (l : list A) :
+  NoDup (map f l) -> (forall x y, In x l -> In y l -> g x = g y -> f x = f y) -> NoDup (map g l).
+Proof.
+  induction l as [|a l IH]; simpl; intros H Hinj; [constructor|].
+  inversion H as [|? ? Hn Hd]; subst. constructor.
+  - intros Hin. apply in_map_iff in Hin. destruct Hin as [y [Ey Hy]].
+    apply Hn. apply in_map_iff. exists y. split; [|exact Hy]. apply Hinj; auto.
+  - apply IH; auto.
+Qed.
+
+Theorem join_twin ps cs nm D rl :
+  2 <= length ps -> join ps cs nm = Ok D -> resolve_all ps cs = Ok rl ->
+  rl_no_bar rl -> pair_bound rl ->
+  forallb is_mapped (d_interiors D) = true ->
+  (* distinct patches have distinct logical patches *)
+  (forall f g, In f (joined_faces rl) -> In g (joined_faces rl) ->
+               p_lname (f_patch f) = p_lname (f_patch g) -> pname (f_patch f) = pname (f_patch g)) ->
+  (forall f, In f (joined_faces rl) -> no_bar (p_lname (f_patch f)) = true) ->
+  fwf (map lface (d_boundary D)) -> pwf (map lpatch (d_interiors D)) ->
+  exists L, d_logical D = Some L /\ d_name L = nm /\ d_dim L = d_dim D
+    /\ d_logical L = None /\ d_mapping L = MNone
+    /\ d_conn L = map liface (d_conn D)
+    /\ (forall g, In g (d_boundary L) <-> exists f, In f (d_boundary D) /\ g = lface f)
+    /\ (forall q, In q (d_interiors L) <-> exists p, In p (d_interiors D) /\ q = lpatch p).
+Proof.
+  intros Hlen HJ Hr Hnb Hpb Hmap Hlinj Hlnb Wf Wp.
+  destruct (join_declared _ _ _ _ _ Hlen HJ Hr Hnb Hpb) as [HD HN].
+  destruct (join_inv _ _ _ _ Hlen HJ) as [rl' [ifs [Hr' [Hb [_ [Hdim [Hc [_ [_ [HL _]]]]]]]]]].
+  destruct (HL Hmap) as [lifs [Hlc [Hlog _]]]. clear HL.
+  exists (logical_of nm (join_dim ps) (d_interiors D) (d_boundary D) lifs).
+  split; [exact Hlog|]. simpl. split; [reflexivity|]. split; [now symmetry|].
+  split; [reflexivity|]. split; [reflexivity|].
+  split.
+  - rewrite <- Hc in Hlc. apply logical_conn_spec in Hlc; [exact Hlc|]. simpl.
+    rewrite map_map.
+    apply (NoDup_map_transfer i_name (fun i => i_name (liface i)) (d_conn D) HN).
+    (* equal logical names -> equal names *)
+    assert (Hside : forall i, In i (d_conn D) ->
+              In (i_minus i) (joined_faces rl) /\ In (i_plus i) (joined_faces rl)
+              /\ i_name i = iname (pname (f_patch (i_minus i))) (pname (f_patch (i_plus i)))).
+    { clear - HD. induction HD as [|x i rl ifs Hx _ IH]; simpl; [tauto|].
+      intros j [<-|Hj].
+      - destruct Hx as [[[E1 E2]|[E1 E2]] [_ E3]]; (split; [rewrite E1|split; [rewrite E2|exact E3]]); auto.
+      - destruct (IH j Hj) as [A [B C]]. repeat split; auto; right; right; assumption. }
+    intros i j Hi Hj E. simpl in E.
+    destruct (Hside i Hi) as [Im [Ip Ei]]. destruct (Hside j Hj) as [Jm [Jp Ej]].
+    apply iname_inj in E; auto. destruct E as [E1 E2].
+    rewrite Ei, Ej. f_equal; apply Hlinj; auto.
+  - split.
+    + intros g. unfold canonF. rewrite (canon_In _ _ _ _ Wf). rewrite in_map_iff.
+      split; intros [f [A B]]; exists f; auto.
+    + intros q. unfold canonP. rewrite (canon_In _ _ _ _ Wp). rewrite in_map_iff.
+      split; intros [p [A B]]; exists p; auto.
+Qed.
+
+(* a domain with an unmapped patch has no logical domain and no mapping *)
+Theorem join_twin_unmapped ps cs nm D :
+  2 <= length ps -> join ps cs nm = Ok D ->
+  forallb is_mapped (d_interiors D) = false -> d_logical D = None /\ d_mapping D = MNone.
+Proof.
+  intros Hlen HJ Hm.
+  destruct (join_inv _ _ _ _ Hlen HJ) as [rl [ifs [_ [_ [_ [_ [_ [_ [_ [_ HU]]]]]]]]]]. auto.
+Qed.
+
+(* face by face: the renaming is one-to-one on the faces of patches with distinct logical names *)
+Lemma lface_inj (P : list patch) f g :
+  (forall p q, In p P -> In q P -> p_lname p = p_lname q -> p = q) ->
+  In (f_patch f) P -> In (f_patch g) P -> lface f = lface g -> f = g.
+Proof.
+  intros Hinj Hf Hg E. destruct f as [p a e], g as [q b e']. unfold lface in E. simpl in *.
+  inversion E. f_equal. apply Hinj; auto.
+Qed.
+
+(* ================================================================ C13: face lookup by (axis, side) *)
+Theorem get_boundary_ok d a e f :
+  get_boundary d a e = Ok f -> In f (d_boundary d) /\ f_axis f = a /\ f_ext f = e.
+Proof.
+  unfold get_boundary. destruct (find _ (d_boundary d)) as [g|] eqn:E; [|discriminate].
+  intros H. injection H as <-. apply find_some in E. destruct E as [Hin Hb].
+  apply andb_true_iff in Hb. destruct Hb as [B1 B2].
+  apply Z.eqb_eq in B1. apply Nat.eqb_eq in B2. auto.
+Qed.
+
+Theorem get_boundary_err d a e er :
+  get_boundary d a e = Err er ->
+  er = EValue /\ forall f, In f (d_boundary d) -> ~ (f_axis f = a /\ f_ext f = e).
+Proof.
+  unfold get_boundary. destruct (find _ (d_boundary d)) as [g|] eqn:E; [discriminate|].
+  intros H. injection H as <-. split; [reflexivity|]. intros f Hf [B1 B2].
+  pose proof (find_none _ _ E f Hf) as Hn. simpl in Hn.
+  rewrite B1, B2, Z.eqb_refl, Nat.eqb_refl in Hn. discriminate.
+Qed.
+
+Theorem get_boundary_complete d a e f0 :
+  In f0 (d_boundary d) -> f_axis f0 = a -> f_ext f0 = e -> exists f, get_boundary d a e = Ok f.
+Proof.
+  intros Hin H1 H2. destruct (get_boundary d a e) as [f|er] eqn:E; [eauto|].
+  apply get_boundary_err in E. destruct E as [_ E]. exfalso. apply (E f0 Hin). auto.
+Qed.
+
+(* a domain made of the single n-cube patch q *)
+Definition patch_like (q : patch) (d : domain) : Prop :=
+  forall f, In f (d_boundary d) <->
+            exists a e, f = mkFace q a e /\ a < p_dim q /\ (e = 1%Z \/ e = (-1)%Z).
+
+Theorem get_boundary_patch q d a e :
+  patch_like q d ->
+  (a < p_dim q /\ (e = 1%Z \/ e = (-1)%Z) -> get_boundary d a e = Ok (mkFace q a e)) /\
+  (~ (a < p_dim q /\ (e = 1%Z \/ e = (-1)%Z)) -> get_boundary d a e = Err EValue).
+Proof.
+  intros HP. split.
+  - intros [Ha He].
+    assert (Hin : In (mkFace q a e) (d_boundary d)) by (apply HP; eauto).
+    destruct (get_boundary_complete d a e _ Hin eq_refl eq_refl) as [f Hf].
+    rewrite Hf. f_equal. apply get_boundary_ok in Hf. destruct Hf as [Hi [H1 H2]].
+    apply HP in Hi. destruct Hi as [a' [e' [-> _]]]. simpl in *. now subst.
+  - intros Hn. destruct (get_boundary d a e) as [f|er] eqn:E.
+    + exfalso. apply get_boundary_ok in E. destruct E as [Hi [H1 H2]].
+      apply HP in Hi. destruct Hi as [a' [e' [-> [A B]]]]. simpl in *. subst. tauto.
+    + apply get_boundary_err in E. now destruct E as [-> _].
+Qed.
+
+Lemma faces_of_In p f :
+  In f (faces_of p) <-> exists a e, f = mkFace p a e /\ a < p_dim p /\ (e = 1%Z \/ e = (-1)%Z).
+Proof.
+  unfold faces_of. rewrite in_flat_map. split.
+  - intros [a [Ha Hf]]. apply in_seq in Ha. simpl in Hf.
+    destruct Hf as [<-|[<-|[]]]; exists a; eexists; (split; [reflexivity|]); split; auto; lia.
+  - intros [a [e [-> [Ha He]]]]. exists a. split; [apply in_seq; lia|].
+    simpl. destruct He as [-> | ->]; auto.
+Qed.
+
+Lemma append_inj_l s x y : s +++ x = s +++ y -> x = y.
+Proof. induction s; simpl; intros H; [exact H|]. inversion H. auto. Qed.
+
+Lemma nat_str_inj n m : nat_str n = nat_str m -> n = m.
+Proof.
+  unfold nat_str. intros H.
+  assert (E : Nat.to_uint n = Nat.to_uint m).
+  { pose proof (NilEmpty.usu (Nat.to_uint n)) as A. pose proof (NilEmpty.usu (Nat.to_uint m)) as B.
+    rewrite H in A. rewrite A in B. now inversion B. }
+  rewrite <- (DecimalNat.Unsigned.of_to n), <- (DecimalNat.Unsigned.of_to m). now rewrite E.
+Qed.
+
+Lemma gidx_inj a e b e' :
+  (e = 1%Z \/ e = (-1)%Z) -> (e' = 1%Z \/ e' = (-1)%Z) -> gidx a e = gidx b e' -> a = b /\ e = e'.
+Proof. unfold gidx. intros [-> | ->] [-> | ->]; simpl; intros H; split; lia. Qed.
+
+(* the faces of one patch: == is Leibniz equality and the printed names are pairwise different,
+   in every dimension *)
+Lemma faces_of_wf p : fwf (faces_of p).
+Proof.
+  split; intros f g Hf Hg; apply faces_of_In in Hf, Hg;
+    destruct Hf as [a [e [-> [Ha He]]]]; destruct Hg as [b [e' [-> [Hb He']]]].
+  - unfold face_pyeqb; simpl. rewrite String.eqb_refl. simpl.
+    rewrite andb_true_iff, Nat.eqb_eq, Z.eqb_eq. split; [intros [-> ->]; reflexivity|].
+    intros E. inversion E. auto.
+  - unfold face_str, gamma_name; simpl. intros E.
+    apply append_inj_l in E. simpl in E. inversion E as [E'].
+    apply nat_str_inj in E'. rename E' into E2. clear E. rename E2 into E. apply gidx_inj in E; auto. destruct E as [-> ->]. reflexivity.
+Qed.
+
+Theorem ncube_patch_like p : patch_like p (ncube_domain p).
+Proof.
+  intros f. unfold ncube_domain; simpl. unfold canonF.
+  rewrite (canon_In _ _ _ _ (faces_of_wf p)). apply faces_of_In.
+Qed.
+
+Lemma map_face_faces m p f :
+  In f (map (map_face m) (canonF (faces_of p))) <-> In f (faces_of (map_patch m p)).
+Proof.
+  rewrite in_map_iff, faces_of_In. split.
+  - intros [g [<- Hg]]. unfold canonF in Hg. apply (canon_In _ _ _ _ (faces_of_wf p)) in Hg.
+    apply faces_of_In in Hg. destruct Hg as [a [e [-> [Ha He]]]].
+    exists a, e. unfold map_face; simpl. auto.
+  - intros [a [e [-> [Ha He]]]]. exists (mkFace p a e). split; [reflexivity|].
+    unfold canonF. apply (canon_In _ _ _ _ (faces_of_wf p)). apply faces_of_In. exists a, e. auto.
+Qed.
+
+(* M(patch): a mapping applied to a plain n-cube *)
+Theorem mapped_patch_like m p :
+  p_map p = None ->
+  exists d, map_domain m (ncube_domain p) = Ok d /\ patch_like (map_patch m p) d
+            /\ d_interiors d = [map_patch m p] /\ d_logical d = Some (ncube_domain p)
+            /\ d_mapping d = MSingle m /\ d_conn d = [].
+Proof.
+  intros Hp. unfold map_domain. simpl. unfold is_mapped. rewrite Hp. simpl.
+  eexists. split; [reflexivity|]. simpl. split; [|auto].
+  intros f. unfold canonF at 1.
+  assert (W : fwf (map (map_face m) (canonF (faces_of p)))).
+  { eapply fwf_sub; [|apply (faces_of_wf (map_patch m p))]. intros g. apply map_face_faces. }
+  rewrite (canon_In _ _ _ _ W). rewrite map_face_faces. apply faces_of_In.
+Qed.
